@@ -6,7 +6,7 @@ use std::sync::{Arc, Mutex, OnceLock};
 use hickory_proto::dnssec::rdata::{DNSSECRData, NSEC, RRSIG};
 use hickory_proto::dnssec::{Algorithm, SigningKey};
 use hickory_proto::op::Query;
-use hickory_proto::rr::rdata::{A, CNAME, MX, NS, TXT};
+use hickory_proto::rr::rdata::{A, ANAME, CNAME, HTTPS, MX, NAPTR, NS, NULL, PTR, SOA, SRV, SVCB, TXT};
 use hickory_proto::rr::{DNSClass, Name, RData, Record, RecordType, SerialNumber};
 use vsec::keys::{self, KeyMat, ZoneKey, F_KSK, F_NOZONE, F_REVOKED, F_ZSK};
 use vsec::sign::{self, SigSpec};
@@ -58,6 +58,9 @@ pub struct Base {
     pub dk_signers: Vec<usize>,
     /// the sibling zone `e.` (own key = trust anchor): its DNSKEY response is part of every world
     pub sibling: ZoneKey,
+    /// two forged RDATA values of the RRset's own type (kinds with an embedded name; the older
+    /// kinds take theirs from `new_rdata`)
+    pub forged: Vec<RData>,
 }
 
 #[derive(Clone)]
@@ -79,6 +82,15 @@ pub fn rrset_kinds() -> Vec<&'static str> {
     // A3: three records; APEX: an RRset at the zone apex (Labels = label count of the zone, 0 in
     // the root zone)
     vec!["A1", "A2", "A3", "TXT", "MX", "NS", "CNAME", "WILDA", "APEX"]
+}
+
+/// RRset kinds whose RDATA holds a domain name, with letters of both cases in it. ON the list of
+/// RFC 4034 6.2 item 3 (names lower-cased in the signed data, so the letter case is not part of
+/// "the exact RRset"): SOA, SRV, PTR, NAPTR (+ MX, NS, CNAME above). OFF the list (RFC 6840 5.1,
+/// RFC 3597 7: case kept, a flipped case bit is another RRset): NSEC, SVCB, HTTPS, ANAME and an
+/// unknown type carrying name-like octets.
+pub fn name_kinds() -> Vec<&'static str> {
+    vec!["SOA", "SRV", "PTR", "NAPTR", "NSEC", "SVCB", "HTTPS", "ANAME", "OPAQUE"]
 }
 
 fn child(zone: &Name, label: &str) -> Name {
@@ -105,6 +117,10 @@ fn alg_keys(alg: Algorithm) -> Vec<KeyMat> {
         Algorithm::RSASHA512 => keys::RSA512.to_vec(),
         _ => keys::RSA.to_vec(),
     }
+}
+
+fn opaque(rdata: &[u8]) -> RData {
+    RData::Unknown { code: RecordType::Unknown(65280), rdata: NULL::with(rdata.to_vec()) }
 }
 
 pub fn base(kind: &str, alg: Algorithm, layout: &str) -> Base {
@@ -175,9 +191,49 @@ pub fn base(kind: &str, alg: Algorithm, layout: &str) -> Base {
             );
             (q.clone(), RecordType::A, vec![Record::from_rdata(q, TTL, RData::A(A::new(192, 0, 2, 7)))], zl, vec![vec![nsec]])
         }
+        "SOA" => (
+            zone.clone(),
+            RecordType::SOA,
+            vec![Record::from_rdata(zone.clone(), TTL, RData::SOA(SOA::new(child(&zone, "Ns.MasTer"), child(&zone, "HostMaster"), 7, 3600, 600, 86400, 60)))],
+            zl,
+            vec![],
+        ),
+        "SRV" => (www.clone(), RecordType::SRV, vec![Record::from_rdata(www.clone(), TTL, RData::SRV(SRV::new(1, 2, 443, child(&zone, "SrvHost"))))], zl + 1, vec![]),
+        "PTR" => (www.clone(), RecordType::PTR, vec![Record::from_rdata(www.clone(), TTL, RData::PTR(PTR(child(&zone, "PtrHost"))))], zl + 1, vec![]),
+        "NAPTR" => (
+            www.clone(),
+            RecordType::NAPTR,
+            vec![Record::from_rdata(www.clone(), TTL, RData::NAPTR(NAPTR::new(10, 20, b"u".to_vec().into(), b"E2U+sip".to_vec().into(), b"".to_vec().into(), child(&zone, "RePlace"))))],
+            zl + 1,
+            vec![],
+        ),
+        "NSEC" => (
+            www.clone(),
+            RecordType::NSEC,
+            vec![Record::from_rdata(www.clone(), TTL, RData::DNSSEC(DNSSECRData::NSEC(NSEC::new(child(&zone, "XyZ"), [RecordType::A, RecordType::RRSIG, RecordType::NSEC]))))],
+            zl + 1,
+            vec![],
+        ),
+        "SVCB" => (www.clone(), RecordType::SVCB, vec![Record::from_rdata(www.clone(), TTL, RData::SVCB(SVCB::new(1, child(&zone, "SvcHost"), vec![])))], zl + 1, vec![]),
+        "HTTPS" => (www.clone(), RecordType::HTTPS, vec![Record::from_rdata(www.clone(), TTL, RData::HTTPS(HTTPS(SVCB::new(1, child(&zone, "WebHost"), vec![]))))], zl + 1, vec![]),
+        "ANAME" => (www.clone(), RecordType::ANAME, vec![Record::from_rdata(www.clone(), TTL, RData::ANAME(ANAME(child(&zone, "ANameT"))))], zl + 1, vec![]),
+        "OPAQUE" => (www.clone(), RecordType::Unknown(65280), vec![Record::from_rdata(www.clone(), TTL, opaque(b"\x00\x01\x08NameLike\x01e\x00"))], zl + 1, vec![]),
         _ => unreachable!(),
     };
+    let forged: Vec<RData> = match kind {
+        "SOA" => [8u32, 9].iter().map(|n| RData::SOA(SOA::new(child(&zone, "Ns.MasTer"), child(&zone, "HostMaster"), *n, 3600, 600, 86400, 60))).collect(),
+        "SRV" => [444u16, 445].iter().map(|n| RData::SRV(SRV::new(1, 2, *n, vsec::n("evil.e.")))).collect(),
+        "PTR" => ["evil.e.", "evil2.e."].iter().map(|n| RData::PTR(PTR(vsec::n(n)))).collect(),
+        "NAPTR" => ["evil.e.", "evil2.e."].iter().map(|n| RData::NAPTR(NAPTR::new(10, 20, b"u".to_vec().into(), b"E2U+sip".to_vec().into(), b"".to_vec().into(), vsec::n(n)))).collect(),
+        "NSEC" => ["evil.e.", "evil2.e."].iter().map(|n| RData::DNSSEC(DNSSECRData::NSEC(NSEC::new(vsec::n(n), [RecordType::A, RecordType::RRSIG, RecordType::NSEC])))).collect(),
+        "SVCB" => ["evil.e.", "evil2.e."].iter().map(|n| RData::SVCB(SVCB::new(1, vsec::n(n), vec![]))).collect(),
+        "HTTPS" => ["evil.e.", "evil2.e."].iter().map(|n| RData::HTTPS(HTTPS(SVCB::new(1, vsec::n(n), vec![])))).collect(),
+        "ANAME" => ["evil.e.", "evil2.e."].iter().map(|n| RData::ANAME(ANAME(vsec::n(n)))).collect(),
+        "OPAQUE" => vec![opaque(b"\x00\x01\x04evil\x01e\x00"), opaque(b"\x00\x02\x04evil\x01e\x00")],
+        _ => vec![],
+    };
     Base {
+        forged,
         name: format!("{kind}/{alg:?}/{layout}"),
         zone,
         qname,
@@ -290,9 +346,18 @@ pub struct FlipBlock {
 
 impl FlipBlock {
     pub fn new(b: &Base) -> Self {
+        Self::with_targets(b, true)
+    }
+    /// `dnskey_too == false`: the bits of the answer response only (the DNSKEY response of a base
+    /// case does not depend on the RRset kind)
+    pub fn with_targets(b: &Base, dnskey_too: bool) -> Self {
         let spec = b.honest(wide(T0), wide(T0));
         let honest = b.assemble(&spec, T0);
-        let targets = [key_of(&b.qname, b.qtype), key_of(&b.zone, RecordType::DNSKEY)].into_iter().map(|k| (k.clone(), honest[&k].len())).collect();
+        let mut keys = vec![key_of(&b.qname, b.qtype)];
+        if dnskey_too {
+            keys.push(key_of(&b.zone, RecordType::DNSKEY));
+        }
+        let targets = keys.into_iter().map(|k| (k.clone(), honest[&k].len())).collect();
         FlipBlock { base: b.clone(), honest, targets }
     }
     pub fn count(&self) -> u64 {
@@ -404,6 +469,7 @@ pub fn field_replacements(b: &Base) -> Vec<Scenario> {
         let mut s = h.clone();
         let mut extra = s.ans_records[0].clone();
         extra.data = match b.qtype {
+            _ if !b.forged.is_empty() => b.forged[0].clone(),
             RecordType::A => RData::A(A::new(6, 6, 6, 6)),
             RecordType::TXT => RData::TXT(TXT::new(vec!["evil".into()])),
             RecordType::MX => RData::MX(MX::new(1, vsec::n("evil.e."))),
@@ -615,6 +681,9 @@ pub fn field_replacements(b: &Base) -> Vec<Scenario> {
 // TTL, owner case, owner}, and the pairs class + new RDATA
 
 fn new_rdata(b: &Base) -> RData {
+    if let Some(f) = b.forged.first() {
+        return f.clone();
+    }
     match b.qtype {
         RecordType::A => RData::A(A::new(6, 6, 6, 6)),
         RecordType::TXT => RData::TXT(TXT::new(vec!["evil".into()])),
@@ -836,6 +905,9 @@ pub fn multi_sigs(b: &Base, thorough: bool, triples: bool) -> Vec<Scenario> {
 // are one more content family; their point is the WARM presentation (WarmBlock below).
 
 fn new_rdata2(b: &Base) -> RData {
+    if let Some(f) = b.forged.get(1) {
+        return f.clone();
+    }
     match b.qtype {
         RecordType::A => RData::A(A::new(7, 7, 7, 7)),
         RecordType::TXT => RData::TXT(TXT::new(vec!["evil-too".into()])),
@@ -1204,7 +1276,7 @@ pub struct HistoryBlock {
 
 impl HistoryBlock {
     /// `dk_narrow`: the DNSKEY RRSIG expires together with the answer's RRSIG (t0+100)
-    pub fn new(b: &Base, depth: u32, dk_narrow: bool) -> Self {
+    pub fn new(b: &Base, depth: u32, dk_narrow: bool, forged_world: bool) -> Self {
         let t0 = T0 as u32;
         let win = (t0 - 10, t0 + 100);
         let long = (t0 - 10, t0 + 1000);
@@ -1236,7 +1308,7 @@ impl HistoryBlock {
         let worlds = vec![b.assemble(&h, T0), b.assemble(&flipped, T0), b.assemble(&other_sig, T0), b.assemble(&low_ttl, T0), b.assemble(&forged_twice, T0)];
         let world_names = vec!["honest", "signature-bit-flipped", "honest-with-longer-lived-RRSIG", "honest-received-ttl-50", "honest-plus-forged-record-twice"];
         let mut ops = vec![];
-        for w in 0..worlds.len() {
+        for w in 0..worlds.len() - if forged_world { 0 } else { 1 } {
             ops.push(Step::Validate { world: w, clone: false });
         }
         ops.push(Step::Validate { world: 0, clone: true });
